@@ -361,6 +361,15 @@ def _history_case(args):
     return cnt, out
 
 
+def _bigtsv_case(args):
+    """tsv export of a large filtered dataset (shared with C02)."""
+    from .c02 import bigtsv_violations
+    vs = bigtsv_violations(args[0])
+    for v in vs:
+        v["case"] = dict(v["case"], kind="bigtsv")
+    return 10, vs
+
+
 def _quantile_case(args):
     """The level reported for quantile q leaves the fraction q below it."""
     seed, = args
@@ -422,6 +431,7 @@ def run(ctx):
                   for lo in range(0, 64, 4)]
     res = par.pmap(_mask_case, items)
     res += par.pmap(_quantile_case, [(ctx.seed,)])
+    res += par.pmap(_bigtsv_case, [(ctx.scratch,)])
     res += par.pmap(_history_case, [(lo, lo + 3, ctx.seed)
                                     for lo in range(0, 36, 3)])
     viols = []
@@ -459,6 +469,9 @@ def replay(case, ctx):
             vs += _history_case((lo, lo + 3, case["seed"]))[1]
         return [v for v in vs if v["case"]["a"] == case["a"]
                 and v["case"]["b"] == case["b"]]
+    if case["kind"] == "bigtsv":
+        return [v for v in _bigtsv_case((ctx.scratch,))[1]
+                if v["case"] == case]
     if case["kind"] == "quantile":
         _, vs = _quantile_case((case["seed"],))
         return vs
